@@ -133,6 +133,8 @@ struct Driver {
     int mb_target = -1; std::function<void()> mb_fn; bool mb_done = false; bool mb_quit = false;
     std::atomic<int> mb_ready{0};
     std::vector<std::unique_ptr<struct VJob>> jobs;
+    struct JobAct { uint32_t idx; bool getmut; Entity e; int pal; };
+    std::vector<JobAct> job_acts;   // what the callback of the next runjob does while it processes entity number idx
 
     EntityManager& em() { return world->entities(); }
 };
@@ -612,6 +614,9 @@ static std::string run_script(const std::vector<std::string>& lines, std::ostrea
         }
         else if (op == "has") { std::string h; int p; in >> h >> p; Entity e = parse_handle(h); do_register(p, 0); R << (em.hasComponent(e, d.cid[p]) ? 1 : 0); }
         else if (op == "markdirty") { std::string h; int p; in >> h >> p; Entity e = parse_handle(h); do_register(p, 0); em.markDirty(e, d.cid[p]); }
+        else if (op == "jobact") { // jobact <entity index> <markdirty|getmut> <h> <pal>: performed by the callback of the next runjob
+            uint32_t idx; std::string kind, h; int p; in >> idx >> kind >> h >> p; do_register(p, 0);
+            d.job_acts.push_back({idx, kind == "getmut", parse_handle(h), p}); }
         else if (op == "valid") { std::string h; in >> h; R << (em.isEntityValid(parse_handle(h)) ? 1 : 0); }
         else if (op == "archof") { std::string h; in >> h; auto* a = em.getArchetypeOf(parse_handle(h)); if (a) R << a->id().toInt(); else R << "null"; }
         else if (op == "mkjob") { // mkjob <entity 0/1> <reqs: pal:flags ...> c <check pals...>   flags: 1 const, 2 optional
@@ -639,6 +644,10 @@ static std::string run_script(const std::vector<std::string>& lines, std::ostrea
                 std::ostringstream s;
                 s << "t" << a.invocation_index.task_index.toInt() << ":n" << a.invocation_index.entity_index.toInt() << ":";
                 for (uint32_t i = 0; i < a.count.toInt(); ++i) {
+                    for (const auto& act : d.job_acts) {
+                        if (act.idx != a.invocation_index.entity_index.toInt() + i) continue;
+                        if (act.getmut) (void) em.getComponent<false>(act.e, d.cid[act.pal]); else em.markDirty(act.e, d.cid[act.pal]);
+                    }
                     if (i) s << ",";
                     s << (a.entities ? hname(a.entities[i]) : std::string("?"));
                     for (size_t c = 0; c < job.component_requests.size(); ++c) {
@@ -652,6 +661,7 @@ static std::string run_script(const std::vector<std::string>& lines, std::ostrea
                 std::lock_guard<std::mutex> lock{vm}; arrays.push_back({a.invocation_index.entity_index.toInt(), s.str()});
             };
             job.run(*d.world, mode == 1 ? JobRunMode::kParallel : JobRunMode::kCurrentThread);
+            d.job_acts.clear();
             std::sort(arrays.begin(), arrays.end());
             R << "last=" << job.last_update_version_.toInt();
             for (auto& v : arrays) R << " " << v.second;
